@@ -12,9 +12,16 @@ HOOKS = {
 
 ENGINES = [
     {
+        "name": "E2-bfs",
+        "path": "props/c01.py",
+        "serves_properties": ["C01"],
+        "kind_free_text": "explicit-state breadth-first search over event histories replayed on fresh real objects, canonical-state "
+        "dedup, invariant evaluated on every transition",
+    },
+    {
         "name": "E1-enumerator",
         "path": "mc/par.py",
-        "serves_properties": ["C13"],
+        "serves_properties": ["C01", "C13"],
         "kind_free_text": "bounded-exhaustive enumeration of a closed input space, sharded over 16 processes, every case "
         "executed on the real code and compared with a reference model",
     },
@@ -26,6 +33,19 @@ NOTES = (
 )
 
 CHECKS = [
+    {
+        "id": "C01",
+        "engine": "E1-enumerator+E2-bfs",
+        "category": "model_checking",
+        "technique": "bounded-exhaustive program enumeration + explicit-state BFS over incremental sessions, brute-force reference evaluator as oracle",
+        "text": "Every expression tree with <=2 operator nodes (3 on a minimal leaf set in thorough) built through every DSL "
+        "constructor, under several domain pairs, is solved by the real find_answer/Z3Backend and judged against the brute-force "
+        "solution set of an independent evaluator (verdict, sol types, bounds, membership, whole truth table); all "
+        "declare/ensure/find_answer histories to depth 5-6 are explored by BFS with a fresh-Solver differential.",
+        "design_ref": "DESIGN.md section 2, C01",
+        "note": "Only the z3 backend runs offline; deeper trees rely on the translation being operator-by-operator and context "
+        "free (small-scope argument). Trusted: mc/refsem.py (self-tested on hand-computed cases).",
+    },
     {
         "id": "C13",
         "engine": "E1-enumerator",
